@@ -1,4 +1,6 @@
 import RodbusModel.Props.C09
+import RodbusModel.Props.C09Client
+import RodbusModel.Props.C15NetTls
 #print axioms Rodbus.C09.versions_correct
 #print axioms Rodbus.C09.tls_table_correct
 #print axioms Rodbus.C09.negotiated_at_least_min
@@ -21,3 +23,16 @@ import RodbusModel.Props.C09
 #print axioms Rodbus.C09.admission_depends_on_peer_only
 #print axioms Rodbus.C09.roleless_refused_after_any_history
 #print axioms Rodbus.C09.role_is_own_role_after_any_history
+/- client-side Certificate message (Props/C09Client.lean); no service before admission (Props/C15NetTls.lean) -/
+#print axioms Rodbus.C09.client_self_signed_single_certificate
+#print axioms Rodbus.C09.client_extra_certificates_irrelevant
+#print axioms Rodbus.C09.client_single_certificate
+#print axioms Rodbus.C09.client_empty_chain_refused
+#print axioms Rodbus.C09.client_chain_admit_iff
+#print axioms Rodbus.C09.client_chain_version
+#print axioms Rodbus.C09.client_self_signed_name_irrelevant
+#print axioms Rodbus.C09.self_signed_verifier_symmetric
+#print axioms Rodbus.C15Net.no_service_before_admission
+#print axioms Rodbus.C15Net.no_service_before_admission_reachable
+#print axioms Rodbus.C15Net.tls_trace_serves_nothing
+#print axioms Rodbus.C15Net.tls_constant_run
